@@ -333,8 +333,10 @@ def _write_replay(prop, sig, case, detail, seed, tier, mod):
 
 
 def write_evidence(prop, tier, seed, coverage, assumptions, wall, violations, level="exploration"):
-    d = ROOT / "evidence"
-    d.mkdir(exist_ok=True)
+    # evidence/ only ever describes runs against /repo itself; a run against a patched scratch copy (CV_REPO, used to
+    # evaluate seeded changes) leaves its record under replays/ (not committed)
+    d = ROOT / ("replays/_scratch_copy_evidence" if os.environ.get("CV_REPO") else "evidence")
+    d.mkdir(parents=True, exist_ok=True)
     doc = {
         "property_id": prop,
         "tier": tier,
